@@ -196,6 +196,33 @@ def ending_automaton(prog, chk, rule="ending-automaton", depth=3):
                 evs = [e for e in r.trace(o[3]) if e[0] == "bytes-eq"]
                 if not evs or evs[-1][3] is not True:
                     problems.append("accepted with a FINGERPRINT but without a successful comparison of the CRC")
+                # ... and the CRC was computed over the bytes before the FINGERPRINT (the last attribute, 8 bytes) with the
+                # length field rewritten to cover it: data[0..2] ++ be16(len - 20) ++ data[4 .. len - 8]
+                from absint.models_content import content_segments, show_segments
+                st_ = o[3]
+                rv = o[4]
+                dseq = rv.v[0].get(0).get(0) if isinstance(rv, Enum) and 0 in rv.v and isinstance(rv.v[0].get(0), Struct) else None
+                crcs = [e for e in r.trace(st_) if e[0] == "crc"]
+                okc = False
+                shown = "no CRC computed"
+                if crcs and isinstance(dseq, Seq) and isinstance(crcs[-1][1], Seq):
+                    d_ = crcs[-1][1]
+                    sg = content_segments(st_, d_)
+                    shown = show_segments(sg)
+                    L_ = dseq.len
+                    did = dseq.content()[0] if dseq.content() is not None else None
+                    if sg is not None and len(sg) == 3 and sg[0][0] == "win" and sg[2][0] == "win" and sg[1][0] == "be" and sg[1][1] == 2 and sg[1][2] is not None:
+                        okc = (sg[0][1] == sg[2][1] and (did is None or sg[0][1] == did)
+                               and st_.sys.entails_eq(sg[0][2]) and st_.sys.entails_eq(sg[0][3] - 2)
+                               and st_.sys.entails_eq(sg[2][2] - 4) and st_.sys.entails_eq(sg[1][2] - (L_ - 20)))
+                        # the hashed bytes end where the FINGERPRINT (the attribute decoded last) starts
+                        go_ = st_.cells.get("ghost:walk:off")
+                        if isinstance(go_, Num):
+                            okc = okc and st_.sys.entails_eq(sg[2][3] + 4 - go_.e)
+                        else:
+                            okc = okc and st_.sys.entails_ge(L_ - sg[2][3] - 8)
+                if not okc:
+                    problems.append("the CRC of an accepted FINGERPRINT is not shown to cover bytes[0..2] ++ be16(len - 20) ++ bytes[4 .. start of the FINGERPRINT] (hashed: %s)" % shown[:200])
         chk.ob(rule, "sequence %s" % (",".join(seq) or "(none)"), not problems, body.loc(), detail="; ".join(sorted(set(problems))),
                how="E2 return states of the walk scripted with this class sequence")
     import itertools
